@@ -25,6 +25,10 @@ import BlocV.DrvC19
 import BlocV.DrvC1617
 -- END C16 C17
 
+-- BEGIN C12
+import BlocV.DrvC12
+-- END C12
+
 open BlocV BlocV.Proto
 
 def specIRes : Spec.IRes → String
@@ -81,6 +85,9 @@ def handleTok (hex reader : String) : String :=
 -- END C13
 
 def handle (words : List String) : String :=
+  -- BEGIN C12
+  if let some r := DrvC12.handle words then r else
+  -- END C12
   -- BEGIN C16 C17
   if let some r := DrvC1617.handle words then r else
   -- END C16 C17
